@@ -286,6 +286,8 @@ func program(r *mc.Run, interleaved, real, overSCION bool, calls int) func(x *mc
 	return func(x *mc.X) {
 		world.Run(r.T, x, func(w *world.World) {
 			e := &env{w: w, x: x, flt: &kit.RecFilter{}, scion: overSCION}
+			// a poll of the error queue for a transmit timestamp that is not there takes its timeout
+			w.Net.PollBlocks = func(c *vnet.UDPConn) bool { return e.real == nil || c != e.real.sock }
 			e.s = kit.NewSim(w, x, kit.IPTransport, srvAddr)
 			if overSCION {
 				e.s = kit.NewSim(w, x, kit.SCIONTransport{}, kit.Router)
@@ -346,6 +348,7 @@ func program(r *mc.Run, interleaved, real, overSCION bool, calls int) func(x *mc
 					}
 					ts, off, err = client.MeasureClockOffsetIP(ctx, w.Log, c, &net.UDPAddr{IP: clientIP}, &net.UDPAddr{IP: net.IPv4(10, 0, 0, 1), Port: 123})
 				})
+				stall := 0
 				for {
 					w.Settle()
 					w.CheckPanics()
@@ -354,10 +357,21 @@ func program(r *mc.Run, interleaved, real, overSCION bool, calls int) func(x *mc
 						break
 					}
 					sock := e.clientSock()
-					if sock == nil || !sock.Reading.Load() {
-						x.Failf("harness", "client neither finished nor reading")
+					if sock == nil {
+						x.Failf("harness", "client neither finished nor holding a socket")
 					}
 					reqs := e.s.NewRequests()
+					if !sock.Reading.Load() && len(reqs) == 0 {
+						// the client is waiting for a transmit timestamp that does not come (its
+						// request is already on the wire and may be answered meanwhile)
+						stall++
+						if stall > 5 {
+							x.Failf("harness", "client neither finished nor reading")
+						}
+						time.Sleep(time.Millisecond)
+						continue
+					}
+					stall = 0
 					var pending []*kit.Reply
 					for _, d := range reqs {
 						if d.Sock != sock {
@@ -422,6 +436,12 @@ func program(r *mc.Run, interleaved, real, overSCION bool, calls int) func(x *mc
 					}
 				}
 				cancel()
+				// late attempts of the round's per-path goroutine (each waits for a transmit
+				// timestamp that may not come) end on their own; give them the time
+				for k := 0; k < 8; k++ {
+					w.Advance(time.Millisecond)
+				}
+				e.s.NewRequests()
 				e.judge()
 				if err == nil {
 					if len(e.flt.Calls) == nflt {
